@@ -511,3 +511,107 @@ Fixpoint go_format (l : list litem) (t : gtime) : string :=
   | [] => EmptyString
   | it :: l' => format_item it t +++ go_format l' t
   end.
+
+(* ------------------------------------------------------------------ *)
+(* Layout strings                                                      *)
+(* ------------------------------------------------------------------ *)
+
+(* nextStdChunk restricted to the chunks above: turns a layout string into
+   items, or None if it contains anything else.  Used only to tie the item
+   lists to the literal layout strings of the Go sources (Examples below). *)
+Fixpoint str_drop (n : nat) (s : string) : string :=
+  match n, s with
+  | S n', String _ r => str_drop n' r
+  | _, _ => s
+  end.
+
+Definition starts_with_digit (s : string) : bool :=
+  match s with String c _ => is_digit c | EmptyString => false end.
+
+Fixpoint layout_items_fuel (fuel : nat) (s : string) : option (list litem) :=
+  match fuel with
+  | O => None
+  | S fuel' =>
+      let next (n : nat) (it : litem) :=
+        match layout_items_fuel fuel' (str_drop n s) with
+        | Some l => Some (it :: l)
+        | None => None
+        end in
+      match s with
+      | EmptyString => Some []
+      | String c _ =>
+          if str_prefix "2006" s then next 4%nat LYear
+          else if str_prefix "01" s then next 2%nat LMonth
+          else if str_prefix "02" s then next 2%nat LDay
+          else if str_prefix "15" s then next 2%nat LHour
+          else if str_prefix "04" s then next 2%nat LMin
+          else if str_prefix "05.999999999" s then
+            (if starts_with_digit (str_drop 12 s) then None else next 12%nat LSecFrac)
+          else if str_prefix "05" s then
+            (* implicit fraction; a following ".0"/",9" etc. would be another chunk *)
+            (match str_drop 2 s with
+             | String d _ => if comma_or_period d then None else next 2%nat LSecFrac
+             | EmptyString => next 2%nat LSecFrac
+             end)
+          else if str_prefix "Z070000" s || str_prefix "Z0700" s then None
+          else if str_prefix "Z07:00:00" s then next 9%nat (LTZ TZColonSec)
+          else if str_prefix "Z07:00" s then next 6%nat (LTZ TZColon)
+          else if str_prefix "Z07" s then next 3%nat (LTZ TZShort)
+          else if str_prefix "-070000" s || str_prefix "-07:00:00" s || str_prefix "-0700" s then None
+          else if str_prefix "-07:00" s then next 6%nat LNumColonTZ
+          else if str_prefix "-07" s then None
+          else if Ascii.eqb c ch_dash || Ascii.eqb c ch_colon || Ascii.eqb c ch_T
+                  || Ascii.eqb c ch_space then next 1%nat (LLit c)
+          else None
+      end
+  end.
+
+Definition layout_items (s : string) : option (list litem) :=
+  layout_items_fuel (S (String.length s)) s.
+
+(* every layout string of path/types (date.go, time.go, timetz.go,
+   timestamp.go, timestamptz.go, parse_time.go) *)
+Example lay_dateFormat : layout_items "2006-01-02" = Some lay_date.
+Proof. reflexivity. Qed.
+Example lay_timeFormat : layout_items "15:04:05.999999999" = Some lay_time.
+Proof. reflexivity. Qed.
+Example lay_time_plain : layout_items "15:04:05" = Some lay_time.
+Proof. reflexivity. Qed.
+Example lay_timeTZSecondFormat : layout_items "15:04:05.999999999Z07:00:00" = Some (lay_timetz TZColonSec).
+Proof. reflexivity. Qed.
+Example lay_timeTZMinuteFormat : layout_items "15:04:05.999999999Z07:00" = Some (lay_timetz TZColon).
+Proof. reflexivity. Qed.
+Example lay_timeTZHourFormat : layout_items "15:04:05.999999999Z07" = Some (lay_timetz TZShort).
+Proof. reflexivity. Qed.
+Example lay_timeTZOutputFormat : layout_items "15:04:05.999999999-07:00" = Some lay_timetz_out.
+Proof. reflexivity. Qed.
+Example lay_timetz_parse1 : layout_items "15:04:05Z07" = Some (lay_timetz TZShort).
+Proof. reflexivity. Qed.
+Example lay_timetz_parse2 : layout_items "15:04:05Z07:00" = Some (lay_timetz TZColon).
+Proof. reflexivity. Qed.
+Example lay_timestampFormat : layout_items "2006-01-02T15:04:05.999999999" = Some (lay_ts ch_T).
+Proof. reflexivity. Qed.
+Example lay_ts_parse1 : layout_items "2006-01-02T15:04:05" = Some (lay_ts ch_T).
+Proof. reflexivity. Qed.
+Example lay_ts_parse2 : layout_items "2006-01-02 15:04:05" = Some (lay_ts ch_space).
+Proof. reflexivity. Qed.
+Example lay_timestampTZSecondFormat :
+  layout_items "2006-01-02T15:04:05.999999999Z07:00:00" = Some (lay_tstz ch_T TZColonSec).
+Proof. reflexivity. Qed.
+Example lay_timestampTZMinuteFormat :
+  layout_items "2006-01-02T15:04:05.999999999Z07:00" = Some (lay_tstz ch_T TZColon).
+Proof. reflexivity. Qed.
+Example lay_timestampTZHourFormat :
+  layout_items "2006-01-02T15:04:05.999999999Z07" = Some (lay_tstz ch_T TZShort).
+Proof. reflexivity. Qed.
+Example lay_timestampTZOutputFormat :
+  layout_items "2006-01-02T15:04:05.999999999-07:00" = Some lay_tstz_out.
+Proof. reflexivity. Qed.
+Example lay_tstz_parse1 : layout_items "2006-01-02T15:04:05Z07" = Some (lay_tstz ch_T TZShort).
+Proof. reflexivity. Qed.
+Example lay_tstz_parse2 : layout_items "2006-01-02 15:04:05Z07" = Some (lay_tstz ch_space TZShort).
+Proof. reflexivity. Qed.
+Example lay_tstz_parse3 : layout_items "2006-01-02T15:04:05Z07:00" = Some (lay_tstz ch_T TZColon).
+Proof. reflexivity. Qed.
+Example lay_tstz_parse4 : layout_items "2006-01-02 15:04:05Z07:00" = Some (lay_tstz ch_space TZColon).
+Proof. reflexivity. Qed.
